@@ -217,6 +217,43 @@ macro_rules! fwd_opt {
 }
 fwd_opt!(OptSome, |s, p| Some(AtomicBitmap::new(s, NonZeroUsize::new(p).unwrap())));
 fwd_opt!(OptNone, |_s, _p| None);
+/// flavour 6: an AtomicBitmap that reached the region's size by growing (new(s0) + enlarge + enlarge, the first
+/// enlarge staying within the slack of the last page where possible): what a region sees must not depend on how the
+/// bitmap got its size (state left behind by enlarge)
+pub struct Grown(AtomicBitmap);
+impl<'a> WithBitmapSlice<'a> for Grown {
+    type S = RefSlice<'a, AtomicBitmap>;
+}
+impl Bitmap for Grown {
+    fn mark_dirty(&self, o: usize, l: usize) {
+        self.0.mark_dirty(o, l)
+    }
+    fn dirty_at(&self, o: usize) -> bool {
+        self.0.dirty_at(o)
+    }
+    fn slice_at(&self, o: usize) -> RefSlice<'_, AtomicBitmap> {
+        self.0.slice_at(o)
+    }
+}
+impl Flavour for Grown {
+    fn make(size: usize, ps: usize) -> Self {
+        let s0 = size - size / 2;
+        let slack = (ps - s0 % ps) % ps;
+        let k1 = std::cmp::min(size - s0, std::cmp::max(1, slack / 2));
+        let k2 = size - s0 - k1;
+        let mut b = AtomicBitmap::new(s0, NonZeroUsize::new(ps).unwrap());
+        if k1 > 0 {
+            b.enlarge(k1);
+        }
+        if k2 > 0 {
+            b.enlarge(k2);
+        }
+        Grown(b)
+    }
+    fn inner(&self) -> Option<&AtomicBitmap> {
+        Some(&self.0)
+    }
+}
 impl Flavour for ArcBm {
     fn make(size: usize, ps: usize) -> Self {
         ArcBm(Arc::new(AtomicBitmap::new(size, NonZeroUsize::new(ps).unwrap())))
@@ -260,6 +297,7 @@ fn exec(case: &[Tok]) -> Vec<Tok> {
         3 => run::<ArcBm>(case, nreg),
         4 => run::<OptNone>(case, nreg),
         5 => run::<Probe>(case, nreg),
+        6 => run::<Grown>(case, nreg),
         _ => run::<Unit>(case, nreg),
     }
 }
@@ -693,7 +731,7 @@ fn pick_near(rng: &mut Rng, pivots: &[u64]) -> u64 {
 fn gen_fault(rng: &mut Rng, tier: Tier, emit: &mut dyn FnMut(Vec<Tok>)) {
     let ncases = if tier == Tier::Quick { 1500 } else { 30_000 };
     for _ in 0..ncases {
-        let flavour = *rng.pick(&[1u64, 1, 5, 5, 2, 3, 4, 0]);
+        let flavour = *rng.pick(&[1u64, 1, 5, 5, 6, 6, 2, 3, 4, 0]);
         let ps = *rng.pick(&[64u64, 100, 512, 1024, 4096, 4096, 5000, 8192]);
         let size = *rng.pick(&[4097u64, 4200, 8192, 8193, 12288, 16000, 20000]) + rng.below(3);
         let start = *rng.pick(&[0u64, 0x1000, 0x7fff_f000]);
@@ -754,7 +792,7 @@ fn gen(rng: &mut Rng, tier: Tier, emit: &mut dyn FnMut(Vec<Tok>)) {
     gen_fault(rng, tier, emit);
     let ncases = if tier == Tier::Quick { 8000 } else { 120_000 };
     for _ in 0..ncases {
-        let flavour = *rng.pick(&[1u64, 1, 5, 5, 2, 3, 4, 0]);
+        let flavour = *rng.pick(&[1u64, 1, 5, 5, 6, 6, 2, 3, 4, 0]);
         let nreg = 1 + rng.below(3) as usize;
         let mut geos: Vec<(u64, u64, u64)> = Vec::new();
         let mut next = *rng.pick(&[0u64, 0x1000, 0x7fff_f000]);
